@@ -28,7 +28,12 @@ try:
     r = sh('/venv/bin/python %s' % d2, env=env, cwd=wt, timeout=900); res['demo_clean_rc'] = r.returncode
     r = sh('git -C %s apply %s' % (wt, patch)); res['patch_applies'] = r.returncode == 0
     if 'src/TotalDepth/LIS/core/src' in open(patch).read():
-        r = sh('/venv/bin/python setup.py build_ext --inplace', cwd=wt, env=env, timeout=900); res['rebuilt_native'] = r.returncode == 0
+        # setup.py build_ext needs the network (setup_requires); rebuild the three modules with the framework's own native builder
+        r = sh("/venv/bin/python -c \"import sys, shutil, glob; sys.path.insert(0, '/verif'); from tdv.core import native; d = native.build('plain'); [shutil.copy(f, '%s/src/TotalDepth/LIS/core/') for f in glob.glob(d + '/*.so')]\"" % wt,
+               env=dict(os.environ, VERIF_REPO=wt), timeout=900)
+        res['rebuilt_native'] = r.returncode == 0
+        if r.returncode:
+            res['rebuild_output'] = r.stdout[-500:]
     r = sh('/venv/bin/python -m pytest -q -p no:cacheprovider --timeout=900 --continue-on-collection-errors -n 8 2>&1 | tail -1', cwd=wt, env=env, timeout=1800)
     res['suite_with_change'] = r.stdout.strip()
     r = sh('/venv/bin/python %s' % d2, env=env, cwd=wt, timeout=900); res['demo_with_change_rc'] = r.returncode
